@@ -173,6 +173,7 @@ def main(argv=None, file=sys.stdout) -> None:
                            bounds=[-abs(args.bounds), abs(args.bounds)],
                            tracemanager=TraceManager(TraceType=trace_type, trace_kwargs=trace_options),
                            trace_every=args.every,
+                           max_steps=args.nt,
                            spawn_stack=args.sample_stack,
                            electronic_integration=args.electronic,
                            hopping_probability=args.probability)
